@@ -703,6 +703,34 @@ def runs_for(algos, policies, flags, sym="full", inf_too=True, coherent=True):
     return out
 
 
+HUGE_COSTS = [{"spe": 0, "dup": 10 ** 13, "hgt": 10 ** 13, "floss": 1, "sloss": 1},
+              {"spe": 0, "dup": 10 ** 12, "hgt": 10 ** 12 + 1, "floss": 10 ** 12, "sloss": 10 ** 12},
+              {"spe": 3, "dup": 2 ** 53 + 3, "hgt": 3 * (2 ** 53 + 3) + 1, "floss": 2 ** 53 + 3, "sloss": 2}]
+
+
+def huge_cost_worker(item):
+    """Concrete companion (no solver): the symbolic runs cover every integer cost vector PROVIDED the code keeps costs exact; a conversion to
+    float (tolerance comparisons, float() round trips) would leave the encoding.  Three vectors with 13-16-digit integers make such code observable."""
+    out = dict(paths=1, obligations=0, discharged=0, violations=[], solver_queries=0, solver_s=0.0, nontrivial=True, item=item["desc"])
+    for algo in item["algos"]:
+        for pol in item["policies"]:
+            for costs in HUGE_COSTS:
+                if not is_super(algo):
+                    costs = dict(costs)
+                out["obligations"] += 1
+                cf = concrete_failures(item["desc"], algo, pol, costs, set(item["flags"]))
+                if cf:
+                    kind = cf[0][0]
+                    out["violations"].append({
+                        "kind": kind, "text": f"{algo}/{pol} with huge integer costs {costs}: {cf[:2]}; input {item['desc']}",
+                        "signature": {"kind": kind, "algo": algo, "policy": pol, "desc": item["desc"], "costs": H.cost_json(costs)},
+                        "data": {"desc": item["desc"], "algo": algo, "policy": pol, "costs": H.cost_json(costs), "expect": kind, "flags": sorted(item["flags"])},
+                        "confirmed": True})
+                    return out
+                out["discharged"] += 1
+    return out
+
+
 def history_runs(algos, flags, policies=("any",)):
     """Runs of the call-history sections: five (four) symbolic costs, finite transfer cost, executed after earlier concrete calls
     in a fresh interpreter (prior_inputs)."""
